@@ -130,7 +130,9 @@ def interpolate_dataset(
 
     for variable in data_set:
         if "direction" in str(variable).lower():
-            periodic_data = {variable: (360, 360)}
+            if periodic_data is None:
+                periodic_data = {}
+            periodic_data[variable] = (360, 360)
 
     out = {}
     for name, track in geometry.tracks.items():
